@@ -411,10 +411,16 @@ class Param:
 
 
 class FuncDecl(Node):
-    __slots__ = ("name", "params", "ret", "body", "alias_words")
+    """form: how the (same) function is written:
+         None                 plain declaration
+         "forward"            'wird später definiert' at the declaration, 'Die Funktion f macht:' at the end of the program
+         ("generic", ty)      every parameter / return of type ty is written as the type parameter T
+         ("operator", name)   'Und überlädt den "name" Operator.' (unary; a call is written with the operator)"""
+    __slots__ = ("name", "params", "ret", "body", "alias_words", "form")
 
-    def __init__(self, name, params, ret, body):
+    def __init__(self, name, params, ret, body, form=None):
         self.name, self.params, self.ret, self.body = name, params, ret, body
+        self.form = form
 
 
 class StructDecl(Node):
@@ -566,7 +572,13 @@ class Printer:
             return "%s %s %s ist" % (P(e.e), art, type_name(e.check)), False
         raise ValueError(type(e))
 
+    OPERATOR_SYNTAX = {"Betrag": "der Betrag von %s", "logisch nicht": "logisch nicht %s", "unäres minus": "-%s", "Länge": "die Länge von %s"}
+
     def call(self, c):
+        form = getattr(c.fn, "form", None)
+        if isinstance(form, tuple) and form[0] == "operator":
+            a = c.args[0]
+            return self.OPERATOR_SYNTAX[form[1]] % (a.name if isinstance(a, Var) else "(" + self.target(a) + ")")
         parts = [c.fn.name + "_a"]
         for p, a in zip(c.fn.params, c.args):
             if p.ref and not isinstance(a, Var):
@@ -672,20 +684,34 @@ class Printer:
         return self.ex(e, True)
 
     def func(self, f):
-        head = "Die Funktion %s" % f.name
+        form = getattr(f, "form", None)
+        gty = form[1] if isinstance(form, tuple) and form[0] == "generic" else None
+        pty = lambda p: ("T Referenz" if p.ref else "T") if (gty is not None and p.ty == gty) else (ref_type_name(p.ty) if p.ref else type_name(p.ty))
+        head = "Die %sFunktion %s" % ("generische " if gty is not None else "", f.name)
         if len(f.params) == 1:
             p = f.params[0]
-            head += " mit dem Parameter %s vom Typ %s" % (p.name, ref_type_name(p.ty) if p.ref else type_name(p.ty))
+            head += " mit dem Parameter %s vom Typ %s" % (p.name, pty(p))
         elif f.params:
             names = [p.name for p in f.params]
-            tys = [ref_type_name(p.ty) if p.ref else type_name(p.ty) for p in f.params]
+            tys = [pty(p) for p in f.params]
             join = lambda xs: ", ".join(xs[:-1]) + " und " + xs[-1]
             head += " mit den Parametern %s vom Typ %s" % (join(names), join(tys))
-        head += "%s gibt %s zurück, macht:" % ("," if f.params else "", "nichts" if f.ret == NICHTS else ret_type_name(f.ret))
+        rt = "nichts" if f.ret == NICHTS else ("ein T" if (gty is not None and f.ret == gty) else ret_type_name(f.ret))
+        alias = '\t"' + " ".join([f.name + "_a"] + ["<%s>" % p.name for p in f.params]) + '"'
+        if form == "forward":
+            return [head + "%s gibt %s zurück," % ("," if f.params else "", rt), "wird später definiert", "und kann so benutzt werden:", alias]
+        head += "%s gibt %s zurück, macht:" % ("," if f.params else "", rt)
         out = [head] + self.stmts(f.body, 1)
+        if isinstance(form, tuple) and form[0] == "operator":
+            out.append('Und überlädt den "%s" Operator.' % form[1])
+            return out
         out.append("Und kann so benutzt werden:")
-        out.append('\t"' + " ".join([f.name + "_a"] + ["<%s>" % p.name for p in f.params]) + '"')
+        out.append(alias)
         return out
+
+    def funcdef(self, f):
+        """the definition of a forward declared function"""
+        return ["Die Funktion %s macht:" % f.name] + self.stmts(f.body, 1)
 
     def structdecl(self, sd):
         out = ["Wir nennen die Kombination aus"]
@@ -706,6 +732,9 @@ class Printer:
                 out += self.func(it)
             else:
                 out += self.stmt(it, 0)
+        for it in self.prog.items:
+            if isinstance(it, FuncDecl) and getattr(it, "form", None) == "forward":
+                out += self.funcdef(it)
         return "\n".join(out) + "\n"
 
 
